@@ -12,6 +12,7 @@ import (
 	"path/filepath"
 	"regexp"
 	"runtime"
+	"runtime/pprof"
 	"sort"
 	"strconv"
 	"strings"
@@ -35,11 +36,12 @@ var (
 	trace      = flag.Bool("trace", false, "trace")
 	noReplay   = flag.Bool("noreplay", false, "skip native replay")
 	deadline   = flag.Duration("deadline", 0, "wall-clock limit for the exploration")
-	solverBin  = flag.String("solver", "z3", "solver binary")
+	solverBin  = flag.String("solver", "z3-new", "solver binary (z3-new = z3 5.1.0; z3 = 4.8.12; cvc5)")
 	maxPaths   = flag.Int("maxpaths", 0, "per-harness path cap (debugging)")
 	noEvidence = flag.Bool("noevidence", false, "do not write the evidence file")
 	crossCheck = flag.Bool("crosscheck", false, "re-run deciding queries of findings on z3-new and cvc5")
 	listOnly   = flag.Bool("list", false, "list harnesses and exit")
+	cpuProf    = flag.String("cpuprofile", "", "write a CPU profile")
 )
 
 const modPath = "github.com/evolbioinfo/goalign"
@@ -55,11 +57,20 @@ type harnessInfo struct {
 
 func main() {
 	flag.Parse()
+	sym.SlowDump = os.Getenv("GOSYM_SLOWDUMP")
 	if *workers == 0 {
 		*workers = runtime.NumCPU()
 		if *workers > 16 {
 			*workers = 16
 		}
+	}
+	if *cpuProf != "" {
+		f, _ := os.Create(*cpuProf)
+		pprof.StartCPUProfile(f)
+		rc := run()
+		pprof.StopCPUProfile()
+		f.Close()
+		os.Exit(rc)
 	}
 	os.Exit(run())
 }
@@ -92,6 +103,11 @@ func buildOverlay(forReplay bool) (map[string][]byte, map[string][]string, error
 			return nil
 		}
 		rel, _ := filepath.Rel(hroot, path)
+		// only the files of this property (zz_verif_cNN*.go) and shared helpers (zz_verif_common*.go)
+		base := filepath.Base(rel)
+		if *prop != "" && !strings.HasPrefix(base, "zz_verif_common") && !strings.HasPrefix(base, "zz_verif_"+strings.ToLower(*prop)) {
+			return nil
+		}
 		data, err := os.ReadFile(path)
 		if err != nil {
 			return err
@@ -346,7 +362,7 @@ func (rb *replayBuilder) build(dirs map[string]bool) {
 		}
 		return
 	}
-	bdir := filepath.Join(*verifDir, "build", "replay")
+	bdir := filepath.Join(*verifDir, "build", "replay-"+*prop)
 	os.MkdirAll(bdir, 0o755)
 	repl := map[string]string{}
 	for virt, data := range overlay {
